@@ -10,16 +10,21 @@ def main():
     ap.add_argument('--replay', default=None)
     a = ap.parse_args()
     pid = a.pid.upper()
+    rp = None
+    if a.replay:
+        # every random choice of a run derives from (tier, seed): re-running with the recorded pair regenerates the same inputs,
+        # so the recorded violation recurs exactly when the defect is still there
+        rp = json.load(open(a.replay))
+        a.tier = rp.get('tier', a.tier); a.seed = int(rp.get('seed', a.seed))
+        print(f'replay: re-running {pid} with tier={a.tier} seed={a.seed}; looking for: {str(rp.get("what"))[:200]}')
     ck = Check(pid, a.tier, a.seed, replay=a.replay)
     try:
         mod = importlib.import_module('harness.' + pid.lower())
-        if a.replay:
-            rp = json.load(open(a.replay))
-            if hasattr(mod, 'replay'):
-                rc = mod.replay(ck, rp)
-                sys.exit(rc)
-            print('replay: module has no replay(); running the full check instead')
         mod.run(ck)
+        if rp is not None and rp.get('key') is not None:
+            again = [v for v in ck.violations if v['key'] == rp['key']]
+            print(f'replay: the recorded violation {"RECURS" if again else "does NOT recur"} on the current tree'
+                  + (f' ({str(again[0]["what"])[:200]})' if again else ''))
     except Exception:
         tb = traceback.format_exc()
         print(tb)
